@@ -85,6 +85,15 @@ COMBOS = [
      "on top of RefLock::trace going through try_borrow: a failed borrow is skipped silently instead of panicking (a "
      "leaked RefMut hides the contents from the collector)",
      [("src/lock.rs", "            Err(err) => panic!(\n                \"cannot trace the contents of a `RefLock` that is still mutably borrowed, was a \\\n                 `RefMut` leaked? ({err})\"\n            ),\n", "            Err(_) => {}\n")]),
+    ("C11-free-all-resume-takes-next-too-late", "R17-07-context-drop-free-all", "C11", "drop_all-unwind-rows",
+     "on top of free_all + Resume guard: the rest of the list is recorded only after the destructor has run, so a "
+     "panicking destructor leaves the guard empty and every older object is leaked (never destructed, never released)",
+     [("src/context.rs", "        let header = gc_ptr.header();\n        resume.rest = header.next();\n        unsafe {\n            if header.is_live() {\n                gc_ptr.drop_in_place();\n                metrics.mark_gc_dropped(1);\n            }\n",
+       "        let header = gc_ptr.header();\n        let next = header.next();\n        unsafe {\n            if header.is_live() {\n                gc_ptr.drop_in_place();\n                metrics.mark_gc_dropped(1);\n            }\n            resume.rest = next;\n")]),
+    ("C08-progress-enum-root-step-reports-exhausted", "R17-03-progress-enum-instead-of-controlflow", "C08", "mark_one-pending-work",
+     "on top of the private Progress enum: the root-tracing step of mark_one reports Exhausted (the driver takes marking "
+     "to be complete although the root trace may just have queued objects)",
+     [("src/context.rs", "            root.trace(self);\n            self.root_needs_trace = false;\n            Progress::Worked\n", "            root.trace(self);\n            self.root_needs_trace = false;\n            Progress::Exhausted\n")]),
     ("C07-white-bit-test-misses-white-weak", "R11-04-white-bit-test", "C07", "resurrect-table",
      "on top of the single-bit whiteness test: is_white compares both colour bits with zero, so a WhiteWeak object "
      "is not recognised as dead (resurrect leaves it dead, the barrier does not re-gray for it)",
